@@ -475,6 +475,24 @@ def run(ck):
             states.append(dict(tag="vacR", gamma=g0, L=(rho, u, p), R=(0.0, 0.0, 0.0)))
         else:
             states.append(dict(tag="vacL", gamma=g0, L=(0.0, 0.0, 0.0), R=(rho, u, p)))
+    # the same problem seen from another frame of reference directly after the original (same densities, pressures and velocity
+    # difference, bit for bit; other bulk velocity): the solution of a problem must not depend on the problems solved before it
+    with_twins, ntw, ncorpus0 = [], 0, ncorpus
+    for si, c in enumerate(states):
+        if si == ncorpus0:
+            ncorpus = len(with_twins)
+        with_twins.append(c)
+        if c["tag"] in ("vaclimit", "vacL", "vacR") or not (si < 24 or si % 20 == 0):
+            continue
+        (rl, ul, pl), (rr, ur, pr) = c["L"], c["R"]
+        sc = max(abs(ul), abs(ur), math.sqrt(max(c["gamma"], GFLOOR) * max(pl / rl, pr / rr)))
+        for V in (2.0 ** math.ceil(math.log2(sc)) * f for f in (4.0, -2.0, 1.0, -0.5, 0.25)):
+            if (ur + V) - (ul + V) == ur - ul and (ul + V != ul or ur + V != ur):
+                with_twins.append(dict(tag=c["tag"], gamma=c["gamma"], L=(rl, ul + V, pl), R=(rr, ur + V, pr), twin_of_previous_shifted_by=V))
+                ntw += 1
+                break
+    states = with_twins
+    ck.coverage["frame_shift_twin_states"] = ntw
     # pass 1: the model's own star state and wave speeds
     wlines = ["W " + state_words(c) for c in states]
     wout = None
